@@ -137,6 +137,7 @@ func IsFinite(f float64) bool      { return !math.IsNaN(f) && !math.IsInf(f, 0) 
 // ---- clock ----
 type symClock struct {
 	mu        sync.Mutex
+	ms        uint64 // kept separately: ms*1e6 wraps for the huge timestamps the checks explore
 	ns        uint64
 	lastSleep int64
 	sleeps    int
@@ -156,7 +157,7 @@ func (c *symClock) Sleep(d time.Duration) {
 func (c *symClock) CurrentTimeMillis() uint64 {
 	c.mu.Lock()
 	defer c.mu.Unlock()
-	return c.ns / 1000000
+	return c.ms
 }
 func (c *symClock) CurrentTimeNano() uint64 {
 	c.mu.Lock()
@@ -173,13 +174,13 @@ func install() {
 func SetClockMs(t uint64) {
 	install()
 	clk.mu.Lock()
-	clk.ns = t * 1000000
+	clk.ms, clk.ns = t, t*1000000
 	clk.mu.Unlock()
 }
 func SetClockNs(t uint64) {
 	install()
 	clk.mu.Lock()
-	clk.ns = t
+	clk.ms, clk.ns = t/1000000, t
 	clk.mu.Unlock()
 }
 func LastSleepNs() int64 { clk.mu.Lock(); defer clk.mu.Unlock(); return clk.lastSleep }
